@@ -1,5 +1,6 @@
 import VaxisModel.Model.DynList
 import VaxisModel.Model.DynGenBodies
+import VaxisModel.Props.C19Exec
 
 /-! F119i (observation, recorded — not a violation of a clause of C19 for any FINITE item count):
 `Dynamic.Draw` stops its downward loop only when the accumulated height reaches the viewport height or the
@@ -37,6 +38,15 @@ theorem zero_heights_draw_all (n W H : Nat) (hH : 1 ≤ H) (h1 : H ≠ 65535) (h
   simp only [List.length_nil, Nat.zero_add] at hd
   simp [draw, Facts.fixed, clampTop, clampLoop, prologue, init, scrollUp, gutter, reveal, h1, h2]
   exact hd
+
+/-- **An endless Builder of zero-height widgets: `Draw` never returns** — the regenerated body of `Draw`,
+    interpreted, with a Builder that returns a widget of height 0 for every index, gap 0, any viewport of
+    at least one row: out of fuel for EVERY fuel (each iteration of the downward loop adds a child at row
+    0, the accumulated height stays 0 < `ctx.Max.Height`, the Builder never returns nil). -/
+theorem endless_builder_never_returns (W H F : Nat) (hH : 1 ≤ H) (h1 : H ≠ 65535) (h2 : W ≠ 65535) :
+    runDraw genBodies (fun _ => some 0) ⟨0, false⟩ init W H F = .error .oof := by
+  rw [Props.C19Exec.gen_bodies_parsed]
+  exact Lemmas.DynExec.draw_hang W H F hH h1 h2
 
 /-- The interpreter of the regenerated `Draw` on a Builder that always returns a widget of height 0:
     out of fuel (= the Go code is still looping) — here after 400 iterations. -/
